@@ -1,5 +1,121 @@
-import SdModel.Model.Lev
-import SdModel.Model.Codec
+import SdModel.Lemmas.Codec
+import SdModel.Lemmas.Rope
+import SdModel.Props.C09
+
+/-!
+# C08 — ordered patch scripts received over the wire execute with exact list semantics
+
+`Script.apply` is the model of `ordered_array_like::apply` (collect into a rope, apply each change through the
+rope operation the code uses, iterate out); `Script.runList` is the reference semantics on a plain growable
+array (assign / insert-before / remove / remove inclusive range / exchange), `none` as soon as an index is out
+of range at the moment it is used.  The wire theorems are instantiated at the discriminant tables and
+declaration orders regenerated from the source on this run.
+-/
 namespace C08
-theorem placeholder : True := trivial
+open Script Codec
+
+variable {α : Type}
+
+theorem listSwap_eq (L : List α) (a b : Nat) : Script.listSwap L a b = Rope.listSwap L a b := rfl
+
+/-- one change: the rope operation has exactly the list effect and re-establishes the invariant -/
+theorem change_ok (P : Rope.Params) (hw : Rope.PWF P) (c : Change α) (r : Rope.Chunks α) (hI : Rope.RInv P r)
+    (L' : List α) (h : applyList c (Rope.flat r) = some L') :
+    ∃ r', applyRope P c r = .ok r' ∧ Rope.RInv P r' ∧ Rope.flat r' = L' := by
+  cases c with
+  | replace v i =>
+    simp only [applyList] at h; split at h
+    · cases h; exact Rope.set_refines P r i v hI (by assumption)
+    · cases h
+  | insert v i =>
+    simp only [applyList] at h; split at h
+    · cases h; exact Rope.insert_refines P hw r i v hI (by assumption)
+    · cases h
+  | delete i o =>
+    cases o with
+    | none =>
+      simp only [applyList] at h; split at h
+      · cases h; exact Rope.remove_refines P hw r i hI (by assumption)
+      · cases h
+    | some hh =>
+      simp only [applyList] at h; split at h
+      · rename_i hc; cases h; exact Rope.drain_refines P hw r i hh hI hc.1 hc.2
+      · cases h
+  | swap a b =>
+    simp only [applyList] at h; split at h
+    · rename_i hc; cases h
+      obtain ⟨r', h1, h2, h3⟩ := Rope.swap_refines P r a b hI hc.1 hc.2
+      exact ⟨r', h1, h2, by rw [h3]; rfl⟩
+    · cases h
+
+theorem run_ok (P : Rope.Params) (hw : Rope.PWF P) (s : List (Change α)) (r : Rope.Chunks α) (hI : Rope.RInv P r)
+    (L' : List α) (h : runList s (Rope.flat r) = some L') :
+    ∃ r', runRope P s r = .ok r' ∧ Rope.RInv P r' ∧ Rope.flat r' = L' := by
+  induction s generalizing r with
+  | nil => simp only [runList] at h; cases h; exact ⟨r, rfl, hI, rfl⟩
+  | cons c cs ih =>
+    simp only [runList] at h
+    split at h
+    · rename_i L1 h1
+      obtain ⟨r1, e1, hI1, hf1⟩ := change_ok P hw c r hI L1 h1
+      obtain ⟨r', e2, hI2, hf2⟩ := ih r1 hI1 (by rw [hf1]; exact h)
+      exact ⟨r', by simp [runRope, e1, e2], hI2, hf2⟩
+    · cases h
+
+/-- **C08 (execution)**: any well-formed script — every index in range at the moment it is used, any length,
+any index order, swaps and ranged deletes included, whether or not this library would emit it — applied by
+`ordered_array_like::apply` gives exactly what executing it on a plain growable array gives, and never panics. -/
+theorem script_rope_eq_list (s : List (Change α)) (xs L' : List α) (h : runList s xs = some L') :
+    Script.apply Gen.ropeParams s xs = .ok L' := by
+  obtain ⟨hI, hf⟩ := Rope.fromIter_spec Gen.ropeParams C09.params_wf xs
+  obtain ⟨r', h1, _, h3⟩ := run_ok Gen.ropeParams C09.params_wf s _ hI L' (by rw [hf]; exact h)
+  simp only [Script.apply, h1, Rope.intoList, h3]
+
+/-! ### the two wire formats -/
+
+theorem tables_nano : TablesOK .nano := by
+  intro k hk
+  have : k = 0 ∨ k = 1 ∨ k = 2 ∨ k = 3 := by omega
+  rcases this with rfl | rfl | rfl | rfl <;> decide
+
+theorem tables_bincode : TablesOK .bincode := by
+  intro k hk
+  have : k = 0 ∨ k = 1 ∨ k = 2 ∨ k = 3 := by omega
+  rcases this with rfl | rfl | rfl | rfl <;> decide
+
+theorem tables_ok (f : Fmt) : TablesOK f := by cases f; exact tables_nano; exact tables_bincode
+
+/-- decoding what a conforming encoder wrote gives back the script (both formats) and consumes exactly its bytes -/
+theorem dec_enc (f : Fmt) (s : List (Change Nat)) (hs : ∀ c ∈ s, WFChange c) (hlen : s.length < 2 ^ 64) (rest : Bytes) :
+    decScript f (encScript f s ++ rest) = some (s, rest) :=
+  decScript_enc f (tables_ok f) s hs hlen rest
+
+/-- re-encoding a decoded script reproduces the received bytes, for every byte string a conforming encoder can produce -/
+theorem reencode (f : Fmt) (bytes : Bytes) (s0 : List (Change Nat)) (hs : ∀ c ∈ s0, WFChange c) (hlen : s0.length < 2 ^ 64)
+    (hb : bytes = encScript f s0) (s : List (Change Nat)) (rest : Bytes) (hd : decScript f bytes = some (s, rest)) :
+    encScript f s ++ rest = bytes := by
+  have := dec_enc f s0 hs hlen []
+  rw [List.append_nil, ← hb, hd] at this
+  cases this; simp [hb]
+
+/-- the borrowed form writes the same discriminants / variant indices as the owned form -/
+theorem ref_tables_eq (f : Fmt) : (tables f).2.1 = (tables f).1 := by cases f <;> decide
+
+theorem ref_enc_eq_owned_enc (f : Fmt) (s : List (Change Nat)) : encScriptRef f s = encScript f s := by
+  have : encChangeRef f = encChange f := by funext c; simp only [encChangeRef, encChange, ref_tables_eq]
+  simp only [encScriptRef, encScript, this]
+
+/-- decode-then-apply = list semantics: the end-to-end statement of the property -/
+theorem wire_then_apply (f : Fmt) (s : List (Change Nat)) (hs : ∀ c ∈ s, WFChange c) (hlen : s.length < 2 ^ 64)
+    (xs L' : List Nat) (h : runList s xs = some L') :
+    ∃ s', decScript f (encScript f s) = some (s', []) ∧ Script.apply Gen.ropeParams s' xs = .ok L' ∧ encScript f s' = encScript f s := by
+  have := dec_enc f s hs hlen []
+  rw [List.append_nil] at this
+  exact ⟨s, this, script_rope_eq_list s xs L' h, rfl⟩
+
+/-! ### non-vacuity -/
+example : runList [Change.swap 0 3, .delete 1 (some 2), .insert 9 1, .replace 7 0, .delete 2 none] [1, 2, 3, 4] = some [7, 9] := by decide
+example : ∀ c ∈ [Change.swap 0 3, .delete 1 (some 2), .insert 9 1], WFChange c := by
+  intro c hc; simp at hc; rcases hc with rfl | rfl | rfl <;> simp [WFChange]
+
 end C08
